@@ -41,7 +41,8 @@ class C07(Prop):
                   "Blaze stand-in. Partial: absence of UB in float code is explored, not proved. Axioms: propext, Classical.choice, Quot.sound only.")
     technique = "Lean 4 proof (index/arith range lemmas over the FEC, decoder, callsign models) + sanitizer-instrumented exploration of the real receive path with hostile generators"
     rule = ("sample streams |x|<=1: uniform/gaussian noise at several levels, constants, tones, square waves, impulse trains, +-1 rails, unshaped "
-            "random symbols, clean and corrupted M17 transmissions; app handlers: random 30-byte LSFs (all TYPE classes), every address class, "
+            "random symbols, clean and corrupted M17 stream transmissions, packet superframes (RAW/ENCAPSULATED, 1-33 frames, AX.25 with valid FCS) and BERT transmissions "
+            "shaped by m17-mod's own filter, clean and damaged; app handlers: random 30-byte LSFs (all TYPE classes), every address class, "
             "packet segment sequences incl. EOF-first with size 0 in RAW/ENCAPSULATED mode; non-trivial = stream that gets past carrier detect "
             "or handler input with EOF; distinct = distinct request lines")
 
